@@ -166,10 +166,11 @@ def template_ok(m):
 
 
 def strict_ok(m):
-    """unique field names at every level (duplicates of different type are a type-mismatch error in the C++ parser)"""
+    """what a sender can produce: unique field names at every level (a duplicate of another type is a type-mismatch error in
+    the C++ parser), no field without items (no API leaves one behind; the C parser rejects them)"""
     what, fields = m
     names = [f[0] for f in fields]
-    if len(set(names)) != len(names):
+    if len(set(names)) != len(names) or any(len(f[3]) == 0 for f in fields):
         return False
     return all(strict_ok(x) for f in fields if f[2] == "MSGG" for x in f[3])
 
